@@ -4,6 +4,7 @@ package main
 // constants, obligations, global (spec-function) definitions.
 
 import (
+	"regexp"
 	"fmt"
 	"go/token"
 	"go/types"
@@ -68,6 +69,12 @@ type VC struct {
 	decls  []string
 	// call-site clauses that applied to at least one call (vacuity guard)
 	firedCS map[*Clause]bool
+	// proof groups: definitional constants of the own clauses labelled "G/label";
+	// an obligation of group G is proved without the hypotheses of other groups
+	groupOf   map[string]string
+	ownClause map[*Clause]bool
+	// allocation mark fresh() is relative to while a callee's postcondition is assumed
+	freshBase Term
 	// well-formedness facts of values loaded while a clause is evaluated
 	wfCollect *[]Term
 	// memo for patternOKDeep
@@ -292,6 +299,15 @@ func (vc *VC) ScriptWith(o *Obligation, style string, extra []string) string {
 	for _, d := range vc.decls[:o.NDecls] {
 		byName[declName(d)] = d
 	}
+	if g := obligationGroup(o.Name); g != "" {
+		for n, og := range vc.groupOf {
+			if og != g {
+				if _, ok := byName[n]; ok {
+					byName[n] = fmt.Sprintf("(define-fun %s () Bool true)", n)
+				}
+			}
+		}
+	}
 	for len(work) > 0 {
 		tok := work[len(work)-1]
 		work = work[:len(work)-1]
@@ -363,8 +379,8 @@ func (vc *VC) ScriptWith(o *Obligation, style string, extra []string) string {
 		}
 	}
 	for _, d := range vc.decls[:o.NDecls] {
-		if need[declName(d)] {
-			b.WriteString(d)
+		if n := declName(d); need[n] {
+			b.WriteString(byName[n]) // a clause of another proof group is switched off here
 			b.WriteByte('\n')
 		}
 	}
@@ -805,4 +821,19 @@ func (vc *VC) fired(cl *Clause) {
 		vc.firedCS = map[*Clause]bool{}
 	}
 	vc.firedCS[cl] = true
+}
+
+var groupRe = regexp.MustCompile(`(?:^|[.:#])([A-Za-z][A-Za-z0-9]*)/[A-Za-z]`)
+
+// obligationGroup: the proof group of an obligation, from the clause label "G/label" in its name.
+func obligationGroup(name string) string {
+	i := strings.Index(name, "#")
+	if i < 0 {
+		return ""
+	}
+	m := groupRe.FindStringSubmatch(name[i:])
+	if m == nil {
+		return ""
+	}
+	return m[1]
 }
